@@ -4,6 +4,7 @@
 //   W  WriteReal(strtod(text))   (input = decimal text of the double)
 //   L  SDAI_LOGICAL::ReadEnum   B  SDAI_BOOLEAN::ReadEnum   E  a three-item enumeration (AHEAD, BEHIND, A1)
 //      (needDelims = 1); value printed: the index assigned (asInt) or - when null
+//   T  SDAI_String::STEPread(in, &err): value printed = hex of the stored literal (or -)
 // answer: kind assigned value severity remaining eof fail   (one line)
 #include <cstdio>
 #include <cstring>
@@ -16,6 +17,7 @@
 #include "clstepcore/read_func.h"
 #include "clutils/errordesc.h"
 #include "cldai/sdaiEnum.h"
+#include "cldai/sdaiString.h"
 
 class TestEnum : public SDAI_Enum {
     public:
@@ -86,6 +88,22 @@ int main() {
             sprintf( buf, "%d", e->asInt() );
             char kk[2] = { k, 0 };
             tail( in, kk, a, a ? buf : "-", err );
+        } else if( k == 'T' ) {
+            std::istringstream in( data );
+            ErrorDescriptor err;
+            SDAI_String sv;
+            Severity sev = sv.STEPread( in, &err );
+            std::string hx;
+            const char * t = sv.c_str();
+            for( size_t i = 0; t && i < strlen( t ); i++ ) {
+                char b[4];
+                sprintf( b, "%02x", ( unsigned char )t[i] );
+                hx += b;
+            }
+            // the severity printed is the one STEPread returns (what STEPattribute::STEPread acts on)
+            ErrorDescriptor ret;
+            ret.severity( sev );
+            tail( in, "T", hx.empty() ? 0 : 1, hx.empty() ? "-" : hx, ret );
         } else if( k == 'W' ) {
             double d = strtod( data.c_str(), 0 );
             char rbuf[64];
